@@ -909,10 +909,10 @@ impl Property for P14 {
             out.push(C14 { r_src: lane, ..base(Ty::Bytes, vec![small.clone(), WKind::Raw { declared: DEFAULT_MAX_LEN as u32 + 1, body: vec![0x40; 64] }]) });
         }
         // (j) a frame of more than 16 MiB: the only case in which the most significant byte of the length prefix is not zero
-        let huge = WKind::Val(bytes_spec_with_encoding_len((16 << 20) + 11));
+        let huge = WKind::Val(spec_with_encoding_len(Ty::Str, (16 << 20) + 11));
         for g in [u32::MAX, 5 << 20] {
             let lane = if g == u32::MAX { vec![] } else { vec![Step::Xfer(g); 8] };
-            out.push(C14 { w_max_len_mode: 1, r_max_len_mode: 4, r_src: lane.clone(), w_sink: lane, ..base(Ty::Bytes, vec![small.clone(), huge.clone(), small.clone()]) });
+            out.push(C14 { w_max_len_mode: 1, r_max_len_mode: 4, r_src: lane.clone(), w_sink: lane, ..base(Ty::Str, vec![WKind::Val(ValSpec { ty: Ty::Str, size: 3, seed: 7 }), huge.clone(), WKind::Val(ValSpec { ty: Ty::Str, size: 3, seed: 8 })]) });
         }
         // (k) more than 65536 frames through one writer and one reader (16-bit counters)
         out.push(base(Ty::U64, (0..65_700u64).map(|i| WKind::Val(ValSpec { ty: Ty::U64, size: 0, seed: i })).collect()));
